@@ -12,6 +12,7 @@ PROP_FILES = sorted(set(list(C12_tmap.PROP_FILES) + [os.path.basename(f) for f i
 def run(ctx):
     vlib.build(ctx, PROP_FILES, variants=("plain", "asan"))
     C12_tmap.run_tmap(ctx, build=False)
+    # (the chunk-level UTC index model of coq/TsModel.v is exercised by C11's run_ts on the same files)
     # (b) file half
     n = 120 if ctx.tier == "quick" else 1200
     cases = [C12_file.gen_case(ctx.rng, ctx.tier) for _ in range(n)]
